@@ -70,6 +70,24 @@ def run_stream(case):
         if verdict != 'wait':
           L.complete_trial(pd, script, t, verdict)
     return out
+  if case.get('wrap') == 'stateless_policy':
+    # the way the service hosts a stateful designer: a new policy object per
+    # request; the designer is rebuilt (without its seed) and restores its state,
+    # seed included, from the study metadata written by the previous request
+    from vizier import pyvizier as vz
+    from vizier._src.algorithms.policies import designer_policy as dp
+    from vizier._src.pythia import local_policy_supporters as lps
+    sup = lps.InRamPolicySupporter(problem)
+    for i, b in enumerate(script['batches']):
+      policy = dp.PartiallySerializableDesignerPolicy(
+          sup.study_descriptor().config, sup, factory, seed=seed)
+      trials = sup.SuggestTrials(policy, b)
+      out.append(L.canon_suggestions(trials))
+      for t in sup.GetTrials(status_matches=vz.TrialStatus.ACTIVE):
+        verdict = L.decide(script, t.id, i)
+        if verdict != 'wait':
+          L.complete_trial(pd, script, t, verdict)
+    return out
   designer = factory(problem, seed=seed)
   active = {}
   next_id = 1
@@ -113,6 +131,10 @@ def run_bench(case):
   exptr = numpy_experimenter.NumpyExperimenter(impl, problem)
   exptr = noisy_experimenter.NoisyExperimenter.from_type(
       exptr, case['noise'], seed=case['noise_seed'])
+  if case.get('infeasible'):
+    from vizier._src.benchmarks.experimenters import infeasible_experimenter
+    exptr = infeasible_experimenter.HashingInfeasibleExperimenter(
+        exptr, infeasible_prob=case['infeasible']['p'], seed=case['infeasible']['seed'])
   factory = make_seeded_factory(case['designer'])
   state_factory = benchmark_state.DesignerBenchmarkStateFactory(
       experimenter=exptr, designer_factory=factory)
